@@ -265,6 +265,13 @@ Section RangeProofs.
   Variable Q : N -> Prop.
   Hypothesis HQ0 : Q 0.
 
+  Lemma frames_length0 nalus : (length nalus <= length (frames nalus))%nat.
+  Proof.
+    induction nalus as [|n t IH]; [apply Nat.le_refl|].
+    cbn [frames flat_map length]. fold (frames t). unfold frame.
+    rewrite !app_length. cbn [be_bytes4 length]. lia.
+  Qed.
+
   (* layouts the theorems speak about: every non-empty NAL unit as `decides` says; an EMPTY NAL unit anywhere for
      cenc, as the last NAL unit for every scheme *)
   Fixpoint ok_layout (nalus : list (list N)) : Prop :=
@@ -394,6 +401,125 @@ Section RangeProofs.
           -- exact Hok.
           -- exists r. split; [exact Hr|]. split; [|exact Hc].
              rewrite He. cbn [spec_mask flat_map]. rewrite <- app_assoc. reflexivity.
+  Qed.
+
+  (* a video NAL unit whose slice header does not parse (cbcs): the step, hence the whole sample, is refused *)
+  Lemma pr_step_hdr_err pre b0 t post cs ce ssps :
+    sch = Cbcs -> isvideo b0 = true -> hdr (b0 :: t) = Err ->
+    lenN (pre ++ frame (b0 :: t) ++ post) < 4294967296 ->
+    pr_step isvideo hdr sch (pre ++ frame (b0 :: t) ++ post) (lenN pre) cs ce ssps = Err.
+  Proof.
+    intros Hsch Hv Hh Hlen.
+    set (sample := pre ++ frame (b0 :: t) ++ post) in *.
+    set (L := lenN (b0 :: t)) in *. set (pos := lenN pre) in *.
+    assert (HL : lenN sample = pos + 4 + L + lenN post).
+    { unfold sample, frame. rewrite !lenN_app, be_bytes4_len. fold L pos. lia. }
+    assert (Hs1 : sample = pre ++ be_bytes4 L ++ ((b0 :: t) ++ post)).
+    { unfold sample, frame. fold L. rewrite <- !app_assoc. reflexivity. }
+    assert (Hs2 : sample = (pre ++ be_bytes4 L) ++ (b0 :: t) ++ post).
+    { unfold sample, frame. fold L. rewrite <- !app_assoc. reflexivity. }
+    assert (Hs3 : sample = (pre ++ be_bytes4 L) ++ b0 :: (t ++ post)).
+    { rewrite Hs2. reflexivity. }
+    assert (Hpl : lenN (pre ++ be_bytes4 L) = pos + 4) by (rewrite lenN_app, be_bytes4_len; reflexivity).
+    unfold pr_step.
+    rewrite (u32_small (pos + 4)) by lia.
+    rewrite (slice_eq sample pre (be_bytes4 L) ((b0 :: t) ++ post) pos (pos + 4) Hs1 eq_refl)
+      by (rewrite be_bytes4_len; reflexivity).
+    cbn [rbind]. rewrite be_bytes4_be by lia.
+    rewrite (u32_small (pos + 4 + L)) by lia.
+    assert (Hlt : (lenN sample <? pos + 4 + L) = false) by (apply N.ltb_ge; lia).
+    rewrite Hlt.
+    rewrite (idx_eq sample _ b0 _ (pos + 4) Hs3) by (symmetry; exact Hpl).
+    cbn [rbind]. rewrite Hv.
+    rewrite (slice_eq sample (pre ++ be_bytes4 L) (b0 :: t) post (pos + 4) (pos + 4 + L) Hs2)
+      by (rewrite ?Hpl; reflexivity).
+    cbn [rbind]. rewrite Hsch, Hh. reflexivity.
+  Qed.
+
+  (* the loop over a prefix of well-behaved NAL units, with at least 5 more bytes behind *)
+  Lemma pr_loop_prefix : forall pre0 fuel sample front cs ssps rest,
+    sample = front ++ frames pre0 ++ rest ->
+    lenN sample < 4294967296 -> 5 <= lenN rest ->
+    (length pre0 < fuel)%nat ->
+    Forall (fun n => decides n (P n) /\ Q (P n)) pre0 ->
+    cs <= lenN front ->
+    exists fuel' cs' ssps',
+      (0 < fuel')%nat /\ cs' <= lenN (front ++ frames pre0) /\
+      pr_loop_g isvideo hdr sch true fuel sample (lenN front) cs (lenN front) ssps =
+      pr_loop_g isvideo hdr sch true fuel' sample (lenN (front ++ frames pre0)) cs' (lenN (front ++ frames pre0)) ssps'.
+  Proof.
+    induction pre0 as [|n rest0 IH]; intros fuel sample front cs ssps rest Hs Hlen H5 Hf Hd Hcs.
+    - exists fuel, cs, ssps. cbn [frames flat_map]. rewrite app_nil_r. split; [lia|]. split; [exact Hcs|reflexivity].
+    - destruct fuel as [|f]; [inversion Hf|]. cbn [pr_loop_g].
+      pose proof (Forall_inv Hd) as Hdn. pose proof (Forall_inv_tail Hd) as Hdr. cbv beta in Hdn.
+      destruct Hdn as [Hdn HQn].
+      pose proof (decides_le _ _ Hdn) as Hple.
+      cbn [frames flat_map] in Hs. fold (frames rest0) in Hs. rewrite <- app_assoc in Hs. subst sample.
+      set (post := frames rest0 ++ rest) in *.
+      assert (HL : lenN (front ++ frame n ++ post) = lenN front + 4 + lenN n + lenN post).
+      { unfold frame. rewrite !lenN_app, be_bytes4_len. lia. }
+      assert (Hpost : 5 <= lenN post) by (unfold post; rewrite lenN_app; lia).
+      rewrite u32_small by lia.
+      assert (E : (lenN front <? lenN (front ++ frame n ++ post) - 4) = true) by (apply N.ltb_lt; lia).
+      rewrite E. rewrite (pr_step_wf front n post (P n)) by assumption.
+      assert (Hpre' : lenN (front ++ frame n) = lenN front + 4 + lenN n).
+      { unfold frame. rewrite !lenN_app, be_bytes4_len. lia. }
+      assert (Hfr : forall x, (front ++ frame n) ++ frames rest0 ++ x = front ++ frame n ++ frames rest0 ++ x)
+        by (intros; rewrite <- !app_assoc; reflexivity).
+      assert (Hfr2 : (front ++ frame n) ++ frames rest0 = front ++ frames (n :: rest0)).
+      { cbn [frames flat_map]. rewrite <- !app_assoc. reflexivity. }
+      destruct (0 <? P n) eqn:EP.
+      + destruct (append_protect_range_spec Q ssps (lenN front + 4 + lenN n - P n - cs) (P n) HQ0 HQn) as (r1 & Hr1 & _ & _).
+        rewrite Hr1. cbn [rbind]. rewrite <- Hpre'.
+        destruct (IH f (front ++ frame n ++ post) (front ++ frame n) (lenN (front ++ frame n)) r1 rest) as (f' & cs' & ssps' & H1 & H2 & H3).
+        * unfold post. rewrite Hfr. reflexivity.
+        * exact Hlen.
+        * exact H5.
+        * cbn [length] in Hf. lia.
+        * exact Hdr.
+        * lia.
+        * exists f', cs', ssps'. rewrite <- Hfr2. split; [exact H1|]. split; [exact H2|exact H3].
+      + rewrite <- Hpre'.
+        destruct (IH f (front ++ frame n ++ post) (front ++ frame n) cs ssps rest) as (f' & cs' & ssps' & H1 & H2 & H3).
+        * unfold post. rewrite Hfr. reflexivity.
+        * exact Hlen.
+        * exact H5.
+        * cbn [length] in Hf. lia.
+        * exact Hdr.
+        * lia.
+        * exists f', cs', ssps'. rewrite <- Hfr2. split; [exact H1|]. split; [exact H2|exact H3].
+  Qed.
+
+  (* the exact outcome when a slice header does not parse: Get(AVC|HEVC)ProtectRanges returns the error *)
+  Lemma protect_ranges_hdr_err pre0 b0 t post0 :
+    sch = Cbcs -> isvideo b0 = true -> hdr (b0 :: t) = Err ->
+    lenN (frames (pre0 ++ (b0 :: t) :: post0)) < 4294967296 ->
+    Forall (fun n => decides n (P n) /\ Q (P n)) pre0 ->
+    protect_ranges_r isvideo hdr sch (frames (pre0 ++ (b0 :: t) :: post0)) = Err.
+  Proof.
+    intros Hsch Hv Hh Hlen Hd.
+    assert (Hfr : frames (pre0 ++ (b0 :: t) :: post0) = [] ++ frames pre0 ++ (frame (b0 :: t) ++ frames post0)).
+    { unfold frames. rewrite flat_map_app. reflexivity. }
+    set (sample := frames (pre0 ++ (b0 :: t) :: post0)) in *.
+    assert (H5 : 5 <= lenN (frame (b0 :: t) ++ frames post0)).
+    { unfold frame. rewrite !lenN_app, be_bytes4_len, lenN_cons. lia. }
+    unfold protect_ranges_r, protect_ranges_g.
+    assert (H4 : (lenN sample <? 4) = false).
+    { apply N.ltb_ge. rewrite Hfr. cbn [app]. rewrite lenN_app. lia. }
+    rewrite H4.
+    assert (Hfuel : (length pre0 < S (length sample))%nat).
+    { rewrite Hfr. cbn [app]. rewrite app_length. pose proof (frames_length0 pre0). lia. }
+    destruct (pr_loop_prefix pre0 (S (length sample)) sample [] 0 [] (frame (b0 :: t) ++ frames post0)
+                Hfr Hlen H5 Hfuel Hd (N.le_refl _)) as (f' & cs' & ssps' & H1 & H2 & H3).
+    change (lenN (@nil N)) with 0 in H3. rewrite H3. cbn [app] in *.
+    destruct f' as [|f']; [lia|]. cbn [pr_loop_g].
+    assert (HL : lenN sample = lenN (frames pre0) + lenN (frame (b0 :: t) ++ frames post0)) by (rewrite Hfr, lenN_app; reflexivity).
+    rewrite u32_small by lia.
+    assert (E : (lenN (frames pre0) <? lenN sample - 4) = true) by (apply N.ltb_lt; lia).
+    rewrite E. rewrite Hfr.
+    rewrite (pr_step_hdr_err (frames pre0) b0 t (frames post0) cs' (lenN (frames pre0)) ssps' Hsch Hv Hh)
+      by (rewrite <- Hfr; exact Hlen).
+    reflexivity.
   Qed.
 
   Lemma frames_length nalus : (length nalus <= length (frames nalus))%nat.
